@@ -198,6 +198,54 @@ theorem receiveAll_append (ldm : List LdmEntry) (ds : List (Denm × Int)) :
     obtain ⟨d, alt⟩ := x
     simp only [receiveAll, List.foldl_cons] at ih ⊢
     rw [ih]
-    simp [feedLdm]
+    simp [feedLdm, mkEntry]
+
+/-! ## model lemmas (restatements of definitions: NOT property theorems; the content of these clauses is the
+harness comparison of the real `BTPDataRequest` / LDM record with the model line) -/
+
+/-- fields of the GBC request `mkReq` builds (definitional) -/
+theorem model_gbc_request_fields (clk : Nat → Nat) (tm : TM) (start : Nat) (r : Request) :
+    ∀ m ∈ (runEvent clk tm start r).2.1,
+      m.2.shape = Shape.circle ∧ m.2.centre = r.pos ∧ m.2.denm.pos = r.pos ∧ m.2.port = 2002 ∧ 0 < m.2.a := by
+  intro m hm
+  simp only [runEvent, alloc, List.mem_map] at hm
+  obtain ⟨o, _, rfl⟩ := hm
+  simp [mkReq, mkDenm]
+
+/-- without maintenance `feedLdm` appends the record `mkEntry` (definitional) -/
+theorem model_feedLdm_appends (ldm : List LdmEntry) (ds : List (Denm × Int)) :
+    (∀ e ∈ ldm, e ∈ receiveAll ldm ds) ∧ (receiveAll ldm ds).length = ldm.length + ds.length ∧
+    ∀ x ∈ ds, mkEntry x.1 x.2 ∈ receiveAll ldm ds := by
+  rw [receiveAll_append]
+  refine ⟨fun e he => List.mem_append_left _ he, by simp, fun x hx => ?_⟩
+  apply List.mem_append_right
+  exact List.mem_map.2 ⟨x, hx, rfl⟩
+
+/-! ## failing repetitions -/
+
+theorem runEventF_offsets (clk : Nat → Nat) (tm : TM) (start : Nat) (r : Request) (fk : Nat → Fault) :
+    (runEventF clk tm start r fk).2.1.map (·.1) =
+      ((List.range (ceilDiv r.period.toNat r.interval.toNat)).filter (fun k => fk k != .encode)).map
+        (· * r.interval.toNat) := by
+  simp [runEventF, attempts, alloc, List.map_map, Function.comp_def]
+
+theorem attempts_all (fk : Nat → Fault) (n : Nat) (h : ∀ k, k < n → fk k ≠ .encode) : attempts fk n = List.range n := by
+  unfold attempts
+  rw [List.filter_eq_self]
+  intro k hk
+  have := h k (List.mem_range.mp hk)
+  simpa using this
+
+theorem firstFault_none (fk : Nat → Fault) (n : Nat) (h : ∀ k, k < n → fk k = .ok) : firstFault fk n = none := by
+  unfold firstFault
+  rw [List.find?_eq_none]
+  intro k hk
+  simp [h k (List.mem_range.mp hk)]
+
+theorem last_offset_aux (i n : Nat) (hn : 0 < n) :
+    ((List.range n).map (fun k => k * i)).getLast? = some ((n - 1) * i) := by
+  cases n with
+  | zero => omega
+  | succ m => simp [List.range_succ]
 
 end FlexModel.Fac.Denm
